@@ -13,9 +13,40 @@ def fixed_table():
 def open_table():
     rows = ["| property | id | what fails (site: condition) |", "|---|---|---|"]
     for f in sorted(glob.glob(os.path.join(V, "known_findings.d", "*.json"))) + [os.path.join(V, "known_findings.json")]:
-        for x in json.load(open(f)).get("findings", []):
-            if x.get("status", "open") == "open":
-                rows.append("| %s | %s | %s |" % (x["property"], x["id"], x["what"].replace("|", "\\|")[:500]))
+        xs = [x for x in json.load(open(f)).get("findings", []) if x.get("status", "open") == "open"]
+        if f.endswith(".census.json"):
+            # the fault-enumeration census: one entry per (mode, kind, innermost library functions, scenario family);
+            # summarised here by (mode, kind, family), listed in full in the file itself
+            agg = {}
+            for x in xs:
+                m = x.get("match", {}); k = (x["property"], m.get("mode"), m.get("kind"), m.get("family"))
+                agg.setdefault(k, []).append(m.get("site", "?"))
+            for (pid, mode, kind, fam), sites in sorted(agg.items(), key=lambda kv: tuple(str(t) for t in kv[0])):
+                rows.append("| %s | %s (%d entries) | %s / %s in %s scenarios; fault sites: %s |" % (pid, os.path.basename(f), len(sites), mode, kind, fam,
+                            ", ".join(sorted(set(sites)))[:420].replace("|", "\\|")))
+            continue
+        for x in xs:
+            rows.append("| %s | %s | %s |" % (x["property"], x["id"], x["what"].replace("|", "\\|")[:500]))
+    return "\n".join(rows)
+def props_table():
+    rows = ["| property | theorems audited (closed) | last run: tier, evaluations, distinct non-trivial, violations | open findings | fixed in /repo | seeded changes caught |", "|---|---|---|---|---|---|"]
+    k = json.load(open(os.path.join(V, "known_findings.json")))
+    for i in range(1, 21):
+        pid = "C%02d" % i
+        try: e = json.load(open(os.path.join(V, "evidence", pid + ".json")))
+        except Exception: e = {}
+        c = e.get("coverage", {})
+        nopen = 0
+        for f in glob.glob(os.path.join(V, "known_findings.d", pid + "*.json")):
+            nopen += len([x for x in json.load(open(f)).get("findings", []) if x.get("status", "open") == "open"])
+        nfixed = len([l for l in k.get("fixed", []) if l.startswith("fixed: property=%s " % pid)])
+        seeds = sorted(glob.glob(os.path.join(V, "seeded", pid + "-*", "meta.json")))
+        caught = 0
+        for f in seeds:
+            det = json.load(open(f)).get("detection", {})
+            if any(r.get("exit") == 1 and r.get("n_violation_lines", 0) > 0 for r in det.values()): caught += 1
+        rows.append("| %s | %s/%s | %s, %s, %s, %s | %d | %d | %d/%d |" % (pid, c.get("discharged", "?"), c.get("obligations", "?"), e.get("tier", "?"),
+                    c.get("evaluations", "?"), c.get("distinct_nontrivial", "?"), e.get("violations", "?"), nopen, nfixed, caught, len(seeds)))
     return "\n".join(rows)
 def seeded_table():
     rows = ["| seeded change | property | what it needs to manifest | detected by (check: exit, #VIOLATION lines) | first replay |", "|---|---|---|---|---|"]
@@ -31,7 +62,7 @@ def seeded_table():
                 break
         rows.append("| %s | %s | %s | %s | %s |" % (name, m.get("property"), str(m.get("needs", "")).replace("|", "\\|").replace("\n", " ")[:260], ds, fr.replace("|", "\\|")))
     return "\n".join(rows)
-gens = {"fixed": fixed_table, "open": open_table, "seeded": seeded_table}
+gens = {"fixed": fixed_table, "open": open_table, "seeded": seeded_table, "props": props_table}
 p = os.path.join(V, "DESIGN.md")
 s = open(p).read()
 for k, fn in gens.items():
